@@ -363,6 +363,11 @@ class Interp:
             cur.extend(self.iterate(rhs))        # list += iterable extends the SAME list object (aliases see it)
             self.assign(st.target, cur, frame)
             return
+        if isinstance(cur, PDict) and isinstance(st.op, ast.BitOr) and isinstance(rhs, (PDict, dict)):
+            for k_, v_ in (rhs.pairs if isinstance(rhs, PDict) else rhs.items()):      # d |= other updates the SAME dict
+                self.rt.setitem(self, cur, k_, v_)
+            self.assign(st.target, cur, frame)
+            return
         if isinstance(cur, (PDict, PSet, bytearray)) or (isinstance(cur, list) and isinstance(st.op, ast.Mult)):
             self.unsupported("augmented assignment on a mutable container", st)
         v = self.binop(st.op, cur, rhs, st)
@@ -455,6 +460,128 @@ class Interp:
             raise PyExc(exc)
         if not broke:
             self.exec_block(st.orelse, frame)
+
+    # ------------------------------------------------------------------ match
+    def x_Match(self, st, frame):
+        subject = self.eval(st.subject, frame)
+        for case in st.cases:
+            binds = {}
+            if self.match_pattern(case.pattern, subject, frame, binds):
+                for k, v in binds.items():
+                    self.assign(ast.Name(id=k, ctx=ast.Store()), v, frame)
+                if case.guard is not None and not self.truth(self.eval(case.guard, frame)):
+                    continue
+                self.exec_block(case.body, frame)
+                return
+
+    def _is_seq(self, v):
+        return isinstance(v, (list, tuple, NT)) and not isinstance(v, (str, bytes))
+
+    def match_pattern(self, p, v, frame, binds):
+        """PEP 634 on path-concrete shapes; comparisons with literals are ordinary (possibly symbolic) equalities"""
+        if isinstance(p, ast.MatchValue):
+            return self.truth(self.eq(v, self.eval(p.value, frame)))
+        if isinstance(p, ast.MatchSingleton):
+            return self.truth(self.rt.is_(self, v, p.value))
+        if isinstance(p, ast.MatchAs):
+            if p.pattern is not None and not self.match_pattern(p.pattern, v, frame, binds):
+                return False
+            if p.name is not None:
+                binds[p.name] = v
+            return True
+        if isinstance(p, ast.MatchOr):
+            for alt in p.patterns:
+                b2 = {}
+                if self.match_pattern(alt, v, frame, b2):
+                    binds.update(b2)
+                    return True
+            return False
+        if isinstance(p, ast.MatchSequence):
+            if isinstance(v, (GenResult, PDict, PSet, dict, set)) or isinstance(v, (str, bytes, bytearray)):
+                return False
+            if not self._is_seq(v):
+                if isinstance(v, (int, float, bool)) or v is None or isinstance(v, Obj):
+                    if isinstance(v, Obj) and self.rt.is_library_obj(v):
+                        raise Undecided("sequence pattern against the model object %s" % v.cls.name)
+                    return False
+                raise Undecided("sequence pattern against %r" % (type(v).__name__,))
+            items = list(v)
+            stars = [i for i, q in enumerate(p.patterns) if isinstance(q, ast.MatchStar)]
+            if not stars:
+                if len(items) != len(p.patterns):
+                    return False
+                return all(self.match_pattern(q, x, frame, binds) for q, x in zip(p.patterns, items))
+            k = stars[0]
+            before, after = p.patterns[:k], p.patterns[k + 1:]
+            if len(items) < len(before) + len(after):
+                return False
+            for q, x in zip(before, items[:len(before)]):
+                if not self.match_pattern(q, x, frame, binds):
+                    return False
+            tail = items[len(items) - len(after):] if after else []
+            for q, x in zip(after, tail):
+                if not self.match_pattern(q, x, frame, binds):
+                    return False
+            if p.patterns[k].name is not None:
+                binds[p.patterns[k].name] = items[len(before):len(items) - len(after)]
+            return True
+        if isinstance(p, ast.MatchMapping):
+            if not isinstance(v, (PDict, dict)):
+                if self._is_seq(v) or isinstance(v, (int, float, str, bytes)) or v is None:
+                    return False
+                raise Undecided("mapping pattern against %r" % (type(v).__name__,))
+            d = v if isinstance(v, PDict) else PDict(list(v.items()))
+            used = []
+            for kexpr, q in zip(p.keys, p.patterns):
+                key = self.eval(kexpr, frame)
+                idx = self.rt.dict_find(self, d, key)
+                if idx is None:
+                    return False
+                used.append(idx)
+                if not self.match_pattern(q, d.pairs[idx][1], frame, binds):
+                    return False
+            if p.rest is not None:
+                binds[p.rest] = PDict([(kk, vv) for i, (kk, vv) in enumerate(d.pairs) if i not in used])
+            return True
+        if isinstance(p, ast.MatchClass):
+            cls = self.eval(p.cls, frame)
+            if not self.truth(self.call(self.rt.builtins["isinstance"], [v, cls], {})):
+                return False
+            if p.patterns:
+                from .stdlib import TypeObj
+                if isinstance(cls, TypeObj):
+                    if len(p.patterns) != 1:
+                        self.raise_py("TypeError", "%s() accepts 1 positional sub-pattern" % cls.name)
+                    if not self.match_pattern(p.patterns[0], v, frame, binds):
+                        return False
+                else:
+                    found, names = (False, None)
+                    if isinstance(cls, PyClass):
+                        found, names = self.rt.class_attr(self, cls, "__match_args__")
+                        if not found and cls.kind in ("dataclass", "namedtuple"):
+                            found, names = True, tuple(cls.fields)
+                    if not found:
+                        self.raise_py("TypeError", "class pattern with positional sub-patterns needs __match_args__")
+                    names = list(names)
+                    if len(p.patterns) > len(names):
+                        self.raise_py("TypeError", "too many positional sub-patterns")
+                    for q, attr in zip(p.patterns, names):
+                        if not self._match_attr(q, v, attr, frame, binds):
+                            return False
+            for attr, q in zip(p.kwd_attrs, p.kwd_patterns):
+                if not self._match_attr(q, v, attr, frame, binds):
+                    return False
+            return True
+        self.unsupported("pattern %s" % type(p).__name__)
+
+    def _match_attr(self, q, v, attr, frame, binds):
+        try:
+            x = self.rt.getattr(self, v, attr)
+        except PyExc as pe:
+            if pe.obj.cls.name == "AttributeError":
+                return False
+            raise
+        return self.match_pattern(q, x, frame, binds)
 
     def _abandoned(self, gen):
         raise Undecided("a generator function's result is abandoned before it is used up: the model has already executed "
@@ -954,7 +1081,16 @@ class Interp:
                     rec(i + 1, fr)
         inner = Frame(frame.func, frame.module, parent=frame)
         inner.yielded = frame.yielded
+        inner.is_comprehension = True
         rec(0, inner)
+
+    def e_NamedExpr(self, e, frame):
+        v = self.eval(e.value, frame)
+        target = frame
+        while getattr(target, "is_comprehension", False) and target.parent is not None:
+            target = target.parent          # `:=` inside a comprehension binds in the enclosing function
+        self.assign(e.target, v, target)
+        return v
 
     def e_ListComp(self, e, frame):
         out = []
